@@ -459,7 +459,6 @@ func enumerate(tier string, emit func(string)) {
 	maxLen := 4
 	// breadth first so that short compositions come first
 	for l := 1; l <= maxLen; l++ {
-		maxLen = l
 		var recL func(prefix []item)
 		recL = func(prefix []item) {
 			if len(prefix) == l {
